@@ -49,7 +49,7 @@ PROPS["C01"] = {
         {"name": "c01_step_admin", "fn": "c01_step", "params": {"quick": {"admin": 1}}},
     ],
     "bounds": {"quick": "one command of {get, get-safe, set v, set-safe ver v, remove, increment n, keys pattern} through process_request against key k whose pre-state is any of {absent, New, Ok, Updated, Deleted(tombstone)} with any value (<= 4 printable chars), version in [1, 1e6), any disk offsets; one live neighbour key; non-admin and admin session",
-               "thorough": "same plus two consecutive commands"},
+               "thorough": "same"},
     "outside": "sequences longer than the bound (covered inductively through the representation invariant checked on the post-state); values containing ';' or newline (command terminators on the wire); non-ASCII values",
     "assumptions": ["representation invariant of a stored key assumed on the pre-state and re-checked on the post-state: New => disk offsets 0, Deleted => value '<Empty>'", "environment shims"],
 }
